@@ -66,7 +66,7 @@ func (h GRAPHQL) Do(w http.ResponseWriter, r *http.Request, exec graphql.GraphEx
 
 	rc, opErr := exec.CreateOperationContext(ctx, params)
 	if opErr != nil {
-		w.WriteHeader(statusFor(opErr))
+		w.WriteHeader(operationErrorStatus(configuredContentType(h.ResponseHeaders), opErr))
 		resp := exec.DispatchError(graphql.WithOperationContext(ctx, rc), opErr)
 		writeJson(w, resp)
 		return
